@@ -606,18 +606,46 @@ func c03(c *core.Ctx) {
 
 		// network side: confirms merged from the cache go into the raw block that InsertBlock verifies next
 		merge := c.Method("network.ProtocolManager", "mergeConfirmsFromCache")
-		closedCallers(c, "ProtocolManager.mergeConfirmsFromCache", []string{"(*network.ProtocolManager).insertBlock"}, merge)
-		ib := c.Fn("network.ProtocolManager.insertBlock")
-		ins := core.CallsIn(ib, c.Method("network.BlockChain", "InsertBlock"))
-		for _, g := range core.CallsIn(ib, merge) {
+		insertBlock := c.Method("network.BlockChain", "InsertBlock")
+		sites := c.CallSites(merge)
+		c.Floor("mergeConfirmsFromCache-callers", len(sites), 1)
+		for _, s := range sites {
+			// the merged block goes to InsertBlock next: an InsertBlock call on the same value that the merge dominates and that no path
+			// from the merge gets around (to a return, or back to the merge for the next block)
 			ok := false
-			for _, i := range ins {
+			ma := s.Instr.Common().Args
+			for _, i := range core.CallsIn(s.Caller, insertBlock) {
 				ia := i.Common().Args
-				if core.Dominates(g, i) && len(ia) == 1 && ia[0] == g.Common().Args[1] && ia[0] == ib.Params[1] && len(core.Returns(ib)) == 1 {
+				if len(ia) == 0 || len(ma) == 0 || !sameRead(ia[len(ia)-1], ma[len(ma)-1]) || !core.Dominates(s.Instr, i) {
+					continue
+				}
+				if i.Block() == s.Instr.Block() {
+					ok = true
+					continue
+				}
+				around := core.ReachCutAvoid(s.Instr.Block(), nil, map[*ssa.BasicBlock]bool{i.Block(): true})
+				escapes := false
+				for b := range around {
+					if b == s.Instr.Block() {
+						// reached again only through a cycle
+						for _, p := range b.Preds {
+							if around[p] {
+								escapes = true
+							}
+						}
+						continue
+					}
+					if len(b.Instrs) > 0 {
+						if _, isRet := b.Instrs[len(b.Instrs)-1].(*ssa.Return); isRet {
+							escapes = true
+						}
+					}
+				}
+				if !escapes {
 					ok = true
 				}
 			}
-			c.Check("insertBlock:mergeConfirmsFromCache(b)≺InsertBlock(b)", "order", ok, g.Pos(), "cached confirms are merged only into the block that is handed to InsertBlock (which filters them) right after")
+			c.Check("mergeConfirmsFromCache(b)≺InsertBlock(b)@"+shortFn(s.Caller), "order", ok, s.Instr.Pos(), "cached confirms are merged only into the block that is handed to InsertBlock (which filters them) right after")
 		}
 	})
 
